@@ -230,7 +230,12 @@ def pmap(func, items, procs=None, chunksize=1):
             yield it, _guard(func, it)
         return
     ctx = mp.get_context("fork")
-    with ctx.Pool(min(procs, len(items))) as pool:
+    nproc = min(procs, len(items))
+    if chunksize == 1 and len(items) >= nproc * 8:
+        # neighbouring instances are usually look-alikes (same gate family, same strings, other values): keep short
+        # runs of them in ONE worker process, so that state the library carries between calls shows up (history replay)
+        chunksize = 4
+    with ctx.Pool(nproc) as pool:
         for it, out in zip(items, pool.imap(_Guard(func), items, chunksize)):
             yield it, out
 
